@@ -111,6 +111,18 @@ else:
         pass
 
 
+def _check_inode(fp, path):
+    # The previous holder may have removed the lock file between our open()
+    # and flock(): we then hold a lock on an unlinked inode while others
+    # create and lock a new file with the same name.
+    try:
+        same = os.fstat(fp.fileno()).st_ino == os.stat(path).st_ino
+    except OSError:
+        same = False
+    if not same:
+        raise LockError("Lock file %r was replaced" % path)
+
+
 class LockFile:
 
     _fp = None
@@ -129,6 +141,7 @@ class LockFile:
 
         try:
             _lock_file(fp)
+            _check_inode(fp, path)
         except Exception as ex:
             try:
                 fp.close()
